@@ -31,12 +31,17 @@ def _make(ir):
     """compile the function / Predicate class from generated source so that inspect.signature is real"""
     names = [p["name"] for p in ir["params"]]
     sig = ", ".join(n if p["default"] is None else f"{n}={p['default']}" for n, p in zip(names, ir["params"]))
-    env = {"LOG": LOG, "_truth": _truth, "W": ir["weights"]}
+    kwonly = ir.get("kwonly")
+    all_names = names + (["s"] if kwonly else [])
+    weights = list(ir["weights"]) + ([1] if kwonly else [])
+    env = {"LOG": LOG, "_truth": _truth, "W": weights}
     if ir["kind"] == "function":
         from krrood.entity_query_language.predicate import symbolic_function
 
-        src = (f"def f({sig}):\n    LOG.append({{{', '.join(repr(n) + ': ' + n for n in names)}}})\n"
-               f"    return _truth(W, [{', '.join(names)}])\n")
+        if kwonly:
+            sig += f", *, s={kwonly['default']}"
+        src = (f"def f({sig}):\n    LOG.append({{{', '.join(repr(n) + ': ' + n for n in all_names)}}})\n"
+               f"    return _truth(W, [{', '.join(all_names)}])\n")
         exec(src, env)
         return symbolic_function(env["f"])
     from dataclasses import dataclass
@@ -45,9 +50,16 @@ def _make(ir):
 
     env.update(dataclass=dataclass, Predicate=Predicate)
     fields = "\n".join(f"    {n}: object" + ("" if p["default"] is None else f" = {p['default']}") for n, p in zip(names, ir["params"]))
-    src = (f"@dataclass(eq=False)\nclass P(Predicate):\n{fields}\n    def __call__(self):\n"
-           f"        LOG.append({{{', '.join(repr(n) + ': self.' + n for n in names)}}})\n"
-           f"        return _truth(W, [{', '.join('self.' + n for n in names)}])\n")
+    base = "Predicate"
+    src = ""
+    if kwonly:
+        # a keyword-only option inherited from a base predicate: the order of dataclasses.fields() (s first) differs
+        # from the order of the __init__ parameters (s last)
+        src = f"@dataclass(eq=False, kw_only=True)\nclass PBase(Predicate):\n    s: object = {kwonly['default']}\n\n"
+        base = "PBase"
+    src += (f"@dataclass(eq=False)\nclass P({base}):\n{fields}\n    def __call__(self):\n"
+            f"        LOG.append({{{', '.join(repr(n) + ': self.' + n for n in all_names)}}})\n"
+            f"        return _truth(W, [{', '.join('self.' + n for n in all_names)}])\n")
     exec(src, env)
     return env["P"]
 
@@ -56,11 +68,13 @@ class C12(Check):
     id = "C12"
     title = "Predicates and symbolic functions agree between concrete and symbolic calls"
     rule = (
-        "Hypothesis draws a signature (1-4 parameters, trailing defaults), compiled from generated source as a "
+        "Hypothesis draws a signature (1-4 parameters, trailing defaults, optionally a keyword-only parameter - for the "
+        "Predicate inherited from a kw_only base dataclass, so that field order and __init__ order differ), compiled from generated source as a "
         "@symbolic_function and as a Predicate dataclass, and a call shape (each argument positional, keyword or "
         "omitted-with-default; each a query variable, an attribute of one, a nested symbolic call, or a concrete value; the same variable may "
         "occur in several positions), with 1-2 variables over domains of 0-4 objects or of plain ints including 0, "
-        "optionally after an always-true condition that binds the first variable. Oracle: an all-concrete call "
+        "optionally after an always-true condition that binds the first variable, optionally in conjunction with the "
+        "very expression object that was passed as one of its arguments. Oracle: an all-concrete call "
         "runs the body once and returns the plain result; a call with a variable returns a SymbolicExpression and "
         "the body's log stays empty; evaluating it as the only condition returns exactly the bindings for which "
         "the concrete call is truthy and logs exactly one invocation per candidate binding with every parameter "
@@ -104,9 +118,14 @@ class C12(Check):
             if all_const:
                 for c in call:
                     c["arg"] = {"c": draw(st.integers(0, 4))}
+            kwonly = None
+            if draw(st.sampled_from([0, 0, 1])):
+                kwonly = dict(default=draw(st.integers(0, 3)), how=draw(st.sampled_from(["omit", "kw"])),
+                              arg={"c": draw(st.integers(0, 4))} if all_const else draw(arg))
             kw_order = draw(st.permutations([i for i, c in enumerate(call) if c["how"] == "kw"]))
             return dict(kind=draw(st.sampled_from(["function", "predicate"])), params=params, call=call, doms=doms,
-                        weights=[draw(st.integers(1, 2)) for _ in range(n)], kw_order=list(kw_order),
+                        weights=[draw(st.integers(1, 2)) for _ in range(n)], kw_order=list(kw_order), kwonly=kwonly,
+                        conj=draw(st.sampled_from([None, None, 0, 1])),
                         plain=[draw(st.sampled_from([False, False, True])) for _ in range(n_vars)], pre=draw(st.sampled_from([False, False, True])))
 
         return ir()
@@ -119,12 +138,17 @@ class C12(Check):
         from ..models.eql_world import Item
 
         names = [p["name"] for p in ir["params"]]
-        used_vars = sorted({list(c["arg"].values())[0] for c in ir["call"] if c["how"] != "omit" and "c" not in c["arg"]})
+        kwonly = ir.get("kwonly")
+        all_call = list(ir["call"]) + ([dict(how=kwonly["how"], arg=kwonly["arg"])] if kwonly else [])
+        all_params = list(ir["params"]) + ([dict(name="s", default=kwonly["default"])] if kwonly else [])
+        all_names = names + (["s"] if kwonly else [])
+        all_weights = list(ir["weights"]) + ([1] if kwonly else [])
+        used_vars = sorted({list(c["arg"].values())[0] for c in all_call if c["how"] != "omit" and "c" not in c["arg"]})
         symbolic = bool(used_vars)
         pos_var = any(c["how"] == "pos" and "c" not in c["arg"] for c in ir["call"])
         default_used = any(c["how"] == "omit" for c in ir["call"])
-        same_var_twice = len([1 for c in ir["call"] if c["how"] != "omit" and "c" not in c["arg"]]) > len(used_vars)
-        classes = [ir["kind"], "symbolic" if symbolic else "concrete", f"arity{len(names)}"]
+        same_var_twice = len([1 for c in all_call if c["how"] != "omit" and "c" not in c["arg"]]) > len(used_vars)
+        classes = [ir["kind"], "symbolic" if symbolic else "concrete", f"arity{len(names)}"] + (["keyword_only_parameter"] if kwonly else [])
         classes += ["positional_variable"] * pos_var + ["default_used"] * default_used + ["same_var_twice"] * same_var_twice
         classes += ["attr_argument"] * any("va" in c["arg"] for c in ir["call"] if c["how"] != "omit")
 
@@ -169,8 +193,11 @@ class C12(Check):
                 return binding[a["va"]] if plain[a["va"]] else binding[a["va"]].a
             return a["c"]
 
-        pos = [arg_node(c["arg"]) for c in ir["call"] if c["how"] == "pos"]
-        kw = {names[i]: arg_node(ir["call"][i]["arg"]) for i in ir["kw_order"]}
+        nodes = {i: arg_node(c["arg"]) for i, c in enumerate(ir["call"]) if c["how"] != "omit"}
+        pos = [nodes[i] for i, c in enumerate(ir["call"]) if c["how"] == "pos"]
+        kw = {names[i]: nodes[i] for i in ir["kw_order"]}
+        if kwonly and kwonly["how"] == "kw":
+            kw["s"] = arg_node(kwonly["arg"])
         LOG.clear()
         try:
             res = target(*pos, **kw)
@@ -180,7 +207,7 @@ class C12(Check):
 
         def params_for(binding):
             d = {}
-            for n, p, c in zip(names, ir["params"], ir["call"]):
+            for n, p, c in zip(all_names, all_params, all_call):
                 d[n] = p["default"] if c["how"] == "omit" else arg_value(c["arg"], binding)
             return d
 
@@ -192,7 +219,7 @@ class C12(Check):
 
         if not symbolic:
             want = params_for({})
-            truth = _truth(ir["weights"], [want[n] for n in names])
+            truth = _truth(all_weights, [want[n] for n in all_names])
             if ir["kind"] == "predicate":
                 if isinstance(res, SymbolicExpression):
                     return fail("concrete_call_returned_expression", f"{ir}", classes=classes)
@@ -214,6 +241,16 @@ class C12(Check):
             return fail("ran_at_construction", f"body ran while building the condition: {LOG[:3]}", classes=classes)
         sel = [variables[i] for i in used_vars]
         conds = [res]
+        # the very expression object that was passed as an argument is also a condition of its own, written after
+        # the call: and_(call(.., e, ..), e)
+        conj = None
+        cands = [i for i, c in nodes.items() if ("va" in ir["call"][i]["arg"] and not plain[ir["call"][i]["arg"]["va"]]) or "g" in ir["call"][i]["arg"]]
+        if ir.get("conj") is not None and cands:
+            from krrood.entity_query_language.entity import and_
+
+            conj = cands[ir["conj"] % len(cands)]
+            conds = [and_(res, nodes[conj])]
+            classes.append("argument_object_is_also_a_condition")
         if ir.get("pre"):
             first = variables[used_vars[0]]
             conds.insert(0, (first if plain[used_vars[0]] else first.a) >= 0)  # holds for every candidate
@@ -226,9 +263,10 @@ class C12(Check):
         want_calls = Counter(freeze(params_for(b)) for b in candidates)
         got_calls = Counter(freeze(d) for d in LOG)
         want_rows = Counter(tuple(label(i, b[i]) for i in used_vars) for b in candidates
-                            if _truth(ir["weights"], [params_for(b)[n] for n in names]))
+                            if _truth(all_weights, [params_for(b)[n] for n in all_names])
+                            and (conj is None or bool(arg_value(ir["call"][conj]["arg"], b))))
         got_rows = Counter(tuple(label(i, o) for i, o in zip(used_vars, row)) for row in rows)
-        truths = {bool(_truth(ir["weights"], [params_for(b)[n] for n in names])) for b in candidates}
+        truths = {bool(_truth(all_weights, [params_for(b)[n] for n in all_names])) for b in candidates}
         nontrivial = (pos_var or default_used) and truths == {True, False}
         if got_calls != want_calls:
             extra = got_calls - want_calls
